@@ -129,6 +129,20 @@ pub fn run(tier: Tier) -> i32 {
         acc.sample(|| json!({"file": name, "index_levels": spec.cfg.index_levels, "states": out.states, "transitions": out.transitions,
             "max_block_loads_per_operation": out.max_loads, "bound": 2 * (spec.cfg.index_levels as u64 + 2)}));
     });
+    // second engine on the deepest files: every history of length <= d with no state deduplication
+    // (the closure's verdict rests on the fingerprint exposing all cursor state)
+    let depth = tier.pick(5usize, 6);
+    let enum_files: Vec<(String, FileSpec)> = files.iter().filter(|f| ["deep2-n17-L3", "deep2-n17-L4", "deep2-n9-L2", "blocks4-L1"].contains(&f.0.as_str())).cloned().collect();
+    let a2 = par_for(enum_files.len(), 1, &deadline, |i, acc| {
+        let (name, spec) = &enum_files[i];
+        if let Ok((entries, bytes)) = build_file(spec) {
+            let (h, o) = crate::cursor_bfs::enumerate_histories(name, spec, &entries, &bytes, depth, "C16", acc);
+            acc.count("undeduplicated_histories", h);
+            acc.transitions += o;
+            acc.evaluations += o;
+        }
+    });
+    acc.merge(a2);
     // growth family
     let ns: &[usize] = match tier {
         Tier::Quick => &[1, 10, 100, 1000, 5000],
@@ -173,7 +187,7 @@ pub fn run(tier: Tier) -> i32 {
     rep.acc = acc;
     let closed_all = rep.acc.counters.get("files_not_closed").copied().unwrap_or(0) == 0;
     rep.set("exhaustive", json!(closed_all));
-    rep.set("rule", json!("E1: the C03 closure BFS re-run over a counting source: for EVERY reachable cursor state x EVERY operation of the alphabet the number of block loads (= reads that start at the file offset of a block, i.e. of its length prefix; seeks that read nothing do not count) during that one public call must be <= 2*(index_levels+2); E2 growth family: n = 1..60000 entries x index_levels 0..=3 x two entry shapes, fresh and positioned cursors (sampled positions incl. after relative walks) x {first,last,next,prev,GE/LE/EQ on present and absent probes} plus 200-step walks, each single step within the bound, and bytes read per operation within 4x what that many largest blocks account for (a scan fallback is orders of magnitude above); Reader::new must read only the last 22 bytes. maxima.growth_max_loads_L*_n* show the measured maximum does not grow with n"));
+    rep.set("rule", json!("E1: the C03 closure BFS re-run over a counting source: for EVERY reachable cursor state x EVERY operation of the alphabet the number of block loads (= reads that start at the file offset of a block, i.e. of its length prefix; seeks that read nothing do not count) during that one public call must be <= 2*(index_levels+2); a second engine enumerates every history of length <= d (5 quick, 6 thorough) on four deep files with no deduplication; E2 growth family: n = 1..60000 entries x index_levels 0..=3 x two entry shapes, fresh and positioned cursors (sampled positions incl. after relative walks) x {first,last,next,prev,GE/LE/EQ on present and absent probes} plus 200-step walks, each single step within the bound, and bytes read per operation within 4x what that many largest blocks account for (a scan fallback is orders of magnitude above); Reader::new must read only the last 22 bytes. maxima.growth_max_loads_L*_n* show the measured maximum does not grow with n"));
     rep.set("bound", json!({"closure_files": files.iter().map(|f| f.0.clone()).collect::<Vec<_>>(), "growth_sizes": ns}));
     rep.finish()
 }
